@@ -31,6 +31,7 @@ import (
 	_ "verifsim/shapes/doc"
 	_ "verifsim/shapes/flat"
 	_ "verifsim/shapes/flatb"
+	_ "verifsim/shapes/kv"
 	_ "verifsim/shapes/nested"
 	_ "verifsim/shapes/nestedb"
 	_ "verifsim/shapes/person"
